@@ -73,6 +73,7 @@ const Prelude = `
 (declare-fun implements (Int Int) Bool)
 (declare-fun ismapobj (Int) Bool)
 (declare-fun islocalobj (Int) Bool)
+(declare-fun objtype (Int) Int)
 (declare-fun band (Int Int) Int)
 (declare-fun bor (Int Int) Int)
 (declare-fun bxor (Int Int) Int)
@@ -129,6 +130,8 @@ type Ctx struct {
 	sentinels   map[string]bool
 	baseFrames  map[string]*lazyFrame
 	axiomsDone  map[string]bool
+	// tid: identifier of a Go type (for objtype facts); nil outside function verification
+	tid func(types.Type) int
 }
 
 type lazyFrame struct {
